@@ -255,9 +255,9 @@ def ref_expected(src, kind):
     keys = []
     off = cstart
     for ln in s[cstart:cend].split('\n'):
-        t = ln.strip(' \t')
+        t = ln.strip(' \t\x0b\x0c\r')
         if t:
-            a = off + (len(ln) - len(ln.lstrip(' \t')))
+            a = off + (len(ln) - len(ln.lstrip(' \t\x0b\x0c\r')))
             keys.append((t, a, a + len(t) - 1))
         off += len(ln) + 1
     for i, (t, a, e) in enumerate(keys):
